@@ -106,21 +106,39 @@ def nan_rule(prog, res, ents):
         names = [(site.get("callee") or "") for _, site in f.calls()]
         if any(n.rsplit("::", 1)[-1] == "partial_cmp" for n in names) and any("panicking" in n or n.rsplit("::", 1)[-1] in ("expect", "unwrap", "panic_fmt", "begin_panic") for n in names):
             sink_mods.setdefault(f.id.split("::")[0], f.id)
+    # NaN-rejecting helpers: return Err when the value is NaN and Ok otherwise -- directly (is_nan) or through another such
+    # helper whose verdict they propagate (fixpoint over the helpers found so far)
     rejecters = set()
-    for f in prog.fns.values():
-        if f.promoted or not any((site.get("callee") or "").rsplit("::", 1)[-1] == "is_nan" for _, site in f.calls()):
-            continue
-        rets = [b.idx for b in f.blocks if b.term[0] == "return" and not b.cleanup]
-        if len(rets) != 1:
-            continue
-        e = sym.Sym(prog, f).at(rets[0]).local(0)
-        try:
-            a = formula.evaluate(e, {"@fn:is_nan": lambda *x: 1, "@fn:is_infinite": lambda *x: 0, "@prog": prog, "@lenient": ("is_nan", "is_infinite")})
-            b = formula.evaluate(e, {"@fn:is_nan": lambda *x: 0, "@fn:is_infinite": lambda *x: 0, "@prog": prog, "@lenient": ("is_nan", "is_infinite")})
-        except formula.Uneval:
-            continue
-        if isinstance(a, tuple) and a[:2] == ("$variant", "Err") and isinstance(b, tuple) and b[:2] == ("$variant", "Ok"):
-            rejecters.add(f.id)
+    changed = True
+    while changed:
+        changed = False
+        short = {r.rsplit("::", 1)[-1] for r in rejecters}
+        for f in prog.fns.values():
+            if f.promoted or f.id in rejecters:
+                continue
+            cs = [(site.get("callee") or "") for _, site in f.calls()]
+            if not any(n.rsplit("::", 1)[-1] == "is_nan" or n in rejecters for n in cs):
+                continue
+            rets = [b.idx for b in f.blocks if b.term[0] == "return" and not b.cleanup]
+            if len(rets) != 1:
+                continue
+            e = sym.Sym(prog, f).at(rets[0]).local(0)
+
+            def env_(nan):
+                env = {"@fn:is_nan": lambda *x: nan, "@fn:is_infinite": lambda *x: 0, "@fn:is_finite": lambda *x: 1 - nan, "@prog": prog,
+                       "@fn:from_residual": lambda r, *x: r}
+                for nm in short:
+                    env["@fn:" + nm] = (lambda *x: ("$variant", "Err", None)) if nan else (lambda *x: ("$variant", "Ok", ()))
+                env["@lenient"] = tuple(["is_nan", "is_infinite", "is_finite"] + sorted(short))
+                return env
+            try:
+                a_ = formula.evaluate(e, env_(1))
+                b_ = formula.evaluate(e, env_(0))
+            except (formula.Uneval, TypeError):
+                continue
+            if isinstance(a_, tuple) and a_[:2] == ("$variant", "Err") and isinstance(b_, tuple) and b_[:2] == ("$variant", "Ok"):
+                rejecters.add(f.id)
+                changed = True
     n_reads = 0
     for ent in ents:
         mod = ent.split("::")[0]
@@ -377,6 +395,128 @@ def aux_slot_agreement(prog, res):
     res.rule("C14.S", n, 2, "aux-map slot derivations in Array4 compared with Array4::update")
 
 
+def raw_buffer_uses(prog, res, ents):
+    """C14.R (second half of the property): a byte buffer that a reader fills straight from the image (read_exact into a Vec<u8>
+    that becomes a field of the returned object, no per-element validation) holds arbitrary bytes in an Ok value.  Every method of
+    that type which uses an element of the buffer as a shift amount must bound it first: for each such shift the dominating
+    comparison facts are evaluated for every byte value 0..=255, and a value >= the bit width that passes them is a violation
+    (debug builds panic with `attempt to shift left with overflow`, release builds wrap)."""
+    from .common import Sym
+    raw = {}     # (adt, field) -> reader fn
+    for g in C.reach_from(prog, ents):
+        filled = set()
+        for b, site in g.calls():
+            if (site.get("callee") or "").rsplit("::", 1)[-1] != "read_exact":
+                continue
+            # the buffer argument is a &mut to a local (possibly through deref_mut / as_mut_slice)
+            cur = [a[1] if isinstance(a[1], int) else a[1][0] for a in site["args"][1:] if a[0] in ("c", "m")]
+            seen = set()
+            while cur:
+                l = cur.pop()
+                if l in seen:
+                    continue
+                seen.add(l)
+                for bb in g.blocks:
+                    for st in bb.stmts:
+                        if st[0] == "=" and st[1] == l and st[2][0] == "ref":
+                            pl = st[2][2]
+                            base = pl if isinstance(pl, int) else pl[0]
+                            filled.add(base)
+                            cur.append(base)
+                    t = bb.term
+                    if t[0] == "call" and t[1]["dest"] == l:
+                        for a in t[1]["args"]:
+                            if a[0] in ("c", "m"):
+                                cur.append(a[1] if isinstance(a[1], int) else a[1][0])
+        filled = set(l for l in filled if "u8" in g.local_ty(l) and ("Vec<" in g.local_ty(l) or "Box<[" in g.local_ty(l)))
+        if not filled:
+            continue
+        # forward: moves and conversions of the filled vector
+        changed = True
+        while changed:
+            changed = False
+            for bb in g.blocks:
+                if bb.cleanup:
+                    continue
+                for st in bb.stmts:
+                    if st[0] == "=" and isinstance(st[1], int) and st[1] not in filled and st[2][0] in ("use", "cast"):
+                        op = st[2][1] if st[2][0] == "use" else st[2][2]
+                        if op[0] in ("c", "m") and isinstance(op[1], int) and op[1] in filled:
+                            filled.add(st[1])
+                            changed = True
+                t = bb.term
+                if t[0] == "call" and isinstance(t[1]["dest"], int) and t[1]["dest"] not in filled:
+                    nm = (t[1].get("callee") or "").rsplit("::", 1)[-1]
+                    if nm in ("into_boxed_slice", "into", "from", "into_vec") and any(a[0] in ("c", "m") and isinstance(a[1], int) and a[1] in filled for a in t[1]["args"]):
+                        filled.add(t[1]["dest"])
+                        changed = True
+        for bb in g.blocks:
+            if bb.cleanup:
+                continue
+            for st in bb.stmts:
+                if st[0] == "=" and st[2][0] == "agg" and isinstance(st[2][1], (list, tuple)) and st[2][1] and st[2][1][0] == "adt":
+                    adt = st[2][1][1]
+                    a = prog.adts.get(adt)
+                    if not a or a.get("kind") != "struct":
+                        continue
+                    names = [x[0] for x in a["variants"][0]["fields"]]
+                    for i, o in enumerate(st[2][-1]):
+                        if i < len(names) and o[0] in ("c", "m") and isinstance(o[1], int) and o[1] in filled:
+                            raw[(adt, names[i])] = g.id
+    n = 0
+    for (adt, fld), reader in sorted(raw.items()):
+        for f in C.fns_of(prog, adt):
+            if f.promoted:
+                continue
+            s = None
+            for b in f.blocks:
+                if b.cleanup:
+                    continue
+                for st in b.stmts:
+                    if not (st[0] == "=" and st[2][0] in ("bin", "checked") and st[2][1] in ("Shl", "Shr", "ShlWithOverflow", "ShrWithOverflow")):
+                        continue
+                    s = s or Sym(prog, f)
+                    try:
+                        e = s.at(b.idx, "t").rvalue(st[2])
+                    except Exception:
+                        continue
+                    if e[0] != "bin" or len(e) < 4:
+                        continue
+                    amt = e[3]
+                    lv = formula.top_leaves(amt)
+                    elems = [k for k, x in lv.items() if any(y[0] == "field" and y[-1] == fld for y in sym.walk(x)) and
+                             (x[0] == "index" or (x[0] == "call" and x[1].rsplit("::", 1)[-1] in ("next", "index", "get_unchecked")))]
+                    if len(lv) != 1 or len(elems) != 1:
+                        continue
+                    ty = f.local_ty(st[1]) if isinstance(st[1], int) else ""
+                    if ty.startswith("("):
+                        ty = ty[1:].split(",")[0]
+                    bits = {"u8": 8, "i8": 8, "u16": 16, "i16": 16, "u32": 32, "i32": 32, "u64": 64, "i64": 64, "usize": 64, "isize": 64, "u128": 128, "i128": 128}.get(ty)
+                    if bits is None:
+                        continue
+                    n += 1
+                    fp = C.facts_pred(s, b.idx)
+                    wit = None
+                    try:
+                        for v in range(256):
+                            env = {elems[0]: v, "@prog": prog}
+                            a = formula.evaluate(amt, env)
+                            holds, _n = fp(env)
+                            if holds and isinstance(a, int) and a >= bits:
+                                wit = (v, a)
+                                break
+                        verdict = wit is None
+                    except (formula.Uneval, TypeError):
+                        verdict = None
+                    res.tri(verdict, "C14.R", "C14.R|%s|%s|shift" % (f.id, fld),
+                            "%s shifts a %d-bit value by an element of `%s` without bounding it: %s fills that buffer straight from the image, and a byte %s (amount %s) "
+                            "reaches the shift (overflow panic in debug builds) once the deserialized value is queried, updated or merged" % (
+                                f.id, bits, fld, reader, wit and wit[0], wit and wit[1]), f.id, st[3] if len(st) > 3 else None)
+    res.rule("C14.R", len(raw), 1, "byte buffers handed from the image to the returned object unvalidated")
+    res.extra["raw_buffers"] = ["%s.%s <- %s" % (a.rsplit("::", 1)[-1], f_, r) for (a, f_), r in sorted(raw.items())]
+    res.extra["raw_buffer_shift_sites"] = n
+
+
 def run(prog, ctx):
     res = Result("C14")
     ents, missing = entries(prog)
@@ -394,6 +534,7 @@ def run(prog, ctx):
     nan_rule(prog, res, ents)
     object_invariants(prog, res, ents)
     aux_slot_agreement(prog, res)
+    raw_buffer_uses(prog, res, ents)
     nan_obl = res.obligations
     for o in an.obligations:
         b = srcs(o.taint)
